@@ -949,6 +949,9 @@ def c18(tier):
         if i % 4 == 1:
             scen[-1]["mode"] = "stdout"
             scen[-1]["n"] = max(n, 13)
+        if i % 6 == 0 and "mode" not in scen[-1] and "missing" not in fail:
+            scen[-1]["explicit"] = False
+            scen[-1]["extra"] = "missing" if i % 12 == 0 else "inc"
         # every other batch under a non-default configuration (the same one for the solo runs)
         if i % 2 == 1:
             scen[-1]["cfg"] = [{"format_multiline_strings": "false"}, {"wrap_column": 40, "begin_style": "always_wrap"}, {"format_multiline_strings": "false", "wrap_column": 30},
@@ -991,6 +994,16 @@ def c18(tier):
         if c.drift:
             c.extra["model_drift"] = c.drift[:5]
     c.samples.append({"scenario": scen[0], "events": all_events[1:4]})
+    # write faults: results beyond a file-size limit cannot be written
+    wf = [{"threads": [1, 2, 8][i % 3], "seed": SEED * 7 + i} for i in range(Q(tier, 6, 60))]
+    for sc, (problems, skipped) in zip(wf, cli.run_scenarios(lambda i, sc: cli.run_write_fault_scenario(i, sc, texts), wf, threads=3)):
+        if skipped:
+            continue
+        c.evaluations += 1
+        c.nontrivial += 1
+        c.extra["write_fault_scenarios"] = c.extra.get("write_fault_scenarios", 0) + 1
+        for p in problems:
+            c.add_violation({"prop": "C18", "clause": p["clause"], "detail": p["detail"], "case": {"label": "write-fault", "scenario": sc}})
     ran, probs = cli.exit_scenarios(c, tier)
     for sc, p in probs:
         c.add_violation({"prop": "C18", "clause": p["clause"], "detail": p["detail"], "case": {"label": f"exit/{sc['kind']}/{sc['fails']}", "scenario": sc}})
@@ -1002,6 +1015,6 @@ def c18(tier):
         rule="CliWorkers.tla: every interleaving of 2 workers x 3 files and 3 workers x 4 files with failing subsets (TLC, exhaustive; with NO_CLEAR the long-then-short stale-buffer counterexample is found). "
              "Real batches (2..40 files, thorough ..200; mixed sizes, encodings, empty, undecodable and missing files; 1,2,3,8,16 threads; directory and shuffled explicit paths): every file must equal its solo result, exit status <=> some file failed; "
              "half of the batches under a non-default configuration (string formatting off, narrow widths, CRLF + tabs), every third file sharing a long prefix with its neighbour; a quarter of the batches run in stdout mode with outputs of up to several hundred KiB: the output must be the blocks `path:<LF>text<LF>` of the good files in some order, each in one piece; "
-             "CliExit.tla: the status for 0..512 (thorough ..65536) failing paths of each kind; "
+             "a directory argument followed by explicit paths inside it (a file with another extension, a missing one); batches in which some results cannot be written (file-size limit): status non-zero, the others as when formatted alone; CliExit.tla: the status for 0..512 (thorough ..65536) failing paths of each kind; "
              "the worker events recorded by the hook (buffer length before clear / after read, file length, write sequence) are validated by TLC against the model",
         assumptions=["rayon's real schedules are sampled, not enumerated; all schedules are enumerated on the model only"])
